@@ -10,4 +10,5 @@ cp /repo/go.sum go.sum 2>/dev/null || true
 # serialise concurrent builds (several checks may start at once)
 exec 9>/verif/.build/build.lock
 flock 9
+/verif/overlays/gen_groupmutex.sh >/dev/null
 $GO build -tags verif -overlay /verif/.build/overlay/overlay.json -o /verif/.build/check ${CHECK_MAIN:-./cmd/check}
